@@ -171,7 +171,57 @@ def run(ctx):
                 else:
                     ctx.ob("C16.R3", fi, subs[0]["target"] == sub_target, "LazyListContainer parses the element construct", key="miss target")
         ctx.ob("C16.R3", fi, hit >= 1 and miss >= 1, "%s.__getitem__: hit and miss paths analysed" % cls, key="paths covered")
-    ctx.floor("C16.R3", 14)
+    # enumeration: iterating a lazy container visits every member once, in declaration / index order, through __getitem__
+    def unwrap(t):
+        while t and t[0] == "call" and t[1] in (("free", "iter"), ("free", "list"), ("free", "tuple")) and len(t[2]) == 1:
+            t = t[2][0]
+        return N.canon_lids(t) if t else t
+    def comp_of(paths):
+        rets = [unwrap(p.retval) for p in paths if p.returns]
+        if len(rets) != len(paths) or len(set(rets)) != 1 or rets[0][0] != "comp":
+            return None, None, None
+        c = rets[0]
+        if len(c[3]) != 1 or c[3][0][1] != ():
+            return None, None, None
+        return c[2], c[3][0][0], c
+    count = N.selfattr("_count")
+    rng = ("call", ("free", "range"), (count,), ())
+    at = lambda k: ("sub", SELF, k)
+    fi, paths = own_method_paths(ctx, "LazyListContainer", "__iter__")
+    el, src, _ = comp_of(paths)
+    ctx.ob("C16.R3", fi, el == at(("idx", 0)) and src == rng, "LazyListContainer.__iter__ yields self[i] for i = 0..count-1 in index order on every path (the cache dict is in first-access order and is not an element order)", key="iter order")
+    fi, paths = own_method_paths(ctx, "LazyListContainer", "__len__")
+    ctx.ob("C16.R3", fi, all(p.retval == count for p in paths), "LazyListContainer.__len__ is the element count fixed at parse time", key="len")
+    fi, paths = own_method_paths(ctx, "LazyListContainer", "__eq__")
+    other = ("param", "other")
+    lens = N.mk_cmp("==", ("call", ("free", "len"), (SELF,), ()), ("call", ("free", "len"), (other,), ()))
+    want_all = ("call", ("free", "all"), (("comp", "gen", N.mk_cmp("==", at(("idx", 0)), ("sub", other, ("idx", 0))), ((rng, ()),), (0,)),), ())
+    ok = len(paths) == 1 and N.canon_lids(paths[0].retval) == N.mk_bool("and", [lens, want_all])
+    ctx.ob("C16.R3", fi, ok, "LazyListContainer.__eq__ compares lengths and every element by index", key="eq")
+    fi, paths = own_method_paths(ctx, "LazyListContainer", "__getitem__")
+    sl = [p for p in paths if ("call", ("free", "isinstance"), (("param", "index"), ("free", "slice")), ()) in p.guards()]
+    el, src, _ = comp_of(sl)
+    want_src = ("call", ("free", "range"), (("star", ("call", ("attr", ("param", "index"), "indices"), (count,), ())),), ())
+    ctx.ob("C16.R3", fi, bool(sl) and el == at(("idx", 0)) and src == want_src, "LazyListContainer slices are [self[i] for i in range(*slice.indices(count))]", key="slice order")
+    names = ("attr", N.selfattr("_struct"), "_subcons")
+    fi, paths = own_method_paths(ctx, "LazyContainer", "keys")
+    ctx.ob("C16.R3", fi, all(unwrap(p.retval) == names for p in paths), "LazyContainer.keys iterates the struct's named members in declaration order", key="keys order")
+    fi, paths = own_method_paths(ctx, "LazyContainer", "values")
+    el, src, _ = comp_of(paths)
+    ctx.ob("C16.R3", fi, el == at(("elem", names, 0)) and src == names, "LazyContainer.values yields self[name] for the named members in declaration order", key="values order")
+    fi, paths = own_method_paths(ctx, "LazyContainer", "items")
+    el, src, _ = comp_of(paths)
+    ctx.ob("C16.R3", fi, el == ("tuple", (("elem", names, 0), at(("elem", names, 0)))) and src == names, "LazyContainer.items yields (name, self[name]) in declaration order", key="items order")
+    lc = M.cls("LazyContainer")
+    alias = [st for st in lc.node.body if isinstance(st, ast.Assign) and any(isinstance(t, ast.Name) and t.id == "__iter__" for t in st.targets)]
+    ok = ("__iter__" in lc.methods and False) or (len(alias) == 1 and isinstance(alias[0].value, ast.Name) and alias[0].value.id == "keys")
+    if "__iter__" in lc.methods:
+        fi2, paths = own_method_paths(ctx, "LazyContainer", "__iter__")
+        ok = all(unwrap(p.retval) == names for p in paths)
+    ctx.ob("C16.R3", "LazyContainer", ok, "iterating a LazyContainer iterates its keys (dict.__iter__ would see the empty underlying dict)", key="iter is keys", loc="construct/core.py")
+    fi, paths = own_method_paths(ctx, "LazyContainer", "__eq__")
+    ctx.ob("C16.R3", fi, len(paths) == 1 and paths[0].retval == ("call", ("attr", ("free", "Container"), "__eq__"), (SELF, other), ()), "LazyContainer.__eq__ is Container.__eq__ (which reads through keys/__getitem__)", key="eq")
+    ctx.floor("C16.R3", 23)
 
     # index table of LazyStruct: names map to positions in the same list that _parse offsets and __getitem__ index
     fi, paths = own_method_paths(ctx, "LazyStruct", "__init__")
